@@ -40,8 +40,9 @@ def stepHeaderBuffer (hb : List Frame) (f : RFrame) : Except Exc (Option RFrame)
     match f.frame with
     | .continuation sid _ eh =>
       if sid != first.sid then (.error (mkExc .ProtocolError), hb) else
+      -- a frame that would take the backlog past its limit is refused and not retained (fix: D49)
+      if (hb.length : Int) ≥ CONTINUATION_BACKLOG then (.error (mkExc .ProtocolError), hb) else
       let buf := hb ++ [f.frame]
-      if (buf.length : Int) > CONTINUATION_BACKLOG then (.error (mkExc .ProtocolError), buf) else
       if eh then
         let block := buf.foldl (fun acc x => acc ++ (match x with
           | .headers _ b .. => b | .pushPromise _ _ b .. => b | .continuation _ b _ => b | _ => [])) []
